@@ -134,8 +134,15 @@ fn cmd_core(a: &Args) -> i32 {
             ("tp", true) => wl_core::run_exec::<Option<Tp<1>>, FillFastSlots>(&p, &cfg),
             ("arc", false) => wl_core::run_exec::<Option<std::sync::Arc<Payload>>, DefaultStrategy>(&p, &cfg),
             ("arc", true) => wl_core::run_exec::<Option<std::sync::Arc<Payload>>, FillFastSlots>(&p, &cfg),
-            _ => panic!("val=tp|arc"),
+            ("weak", false) => wl_core::run_exec::<std::sync::Weak<Payload>, DefaultStrategy>(&p, &cfg),
+            ("weak", true) => wl_core::run_exec::<std::sync::Weak<Payload>, FillFastSlots>(&p, &cfg),
+            _ => panic!("val=tp|arc|weak"),
         };
+        if val == "weak" {
+            // a container of Weak does not keep its targets alive: once the keeper lets go, every
+            // target must be destroyed although the execution's containers are long gone
+            tp::weak_keeper_clear();
+        }
         n += 1;
         runner::with(|r| {
             r.execs += 1;
@@ -161,10 +168,10 @@ fn cmd_core(a: &Args) -> i32 {
             r.extra.insert("hashes".into(), json!(hs));
         });
     }
-    if val == "arc" {
+    if val == "arc" || val == "weak" {
         let live = tp::ARC_LIVE.load(std::sync::atomic::Ordering::Relaxed);
         if live != 0 {
-            runner::violation("C02", "arc-leak", format!("{} Arc payload(s) alive after everything was dropped", live), &json!({"workload": "core", "val": "arc", "seed": seed, "shard": shard}));
+            runner::violation("C02", "arc-leak", format!("{} Arc payload(s) alive after everything was dropped", live), &json!({"workload": "core", "val": val, "seed": seed, "shard": shard}));
         }
     }
     if alloc == AllocMode::Real && val == "tp" {
